@@ -248,16 +248,25 @@ def _compile_files_cache(filenames,
                          encoding,
                          cache_dir,
                          numeric_enums):
-    key = [codec.encode('ascii')]
-
     if isinstance(filenames, str):
         filenames = [filenames]
+
+    # Everything that influences the compiled specification is part
+    # of the key. Each part is prefixed with its length to make the
+    # concatenation unambiguous.
+    key = [
+        repr((codec,
+              any_defined_by_choices,
+              encoding,
+              numeric_enums)).encode('utf-8')
+    ]
 
     for filename in filenames:
         with open(filename, 'rb') as fin:
             key.append(fin.read())
 
-    key = b''.join(key)
+    key = b''.join([str(len(part)).encode('ascii') + b':' + part
+                    for part in key])
     cache = diskcache.Cache(cache_dir)
 
     try:
